@@ -2,7 +2,7 @@
    Only ExtrOcamlBasic is used: bool, option, unit, list, prod, sumbool map to
    OCaml's; positive/N/Z/nat stay the extracted inductive types. *)
 From Coq Require Extraction ExtrOcamlBasic.
-From PV Require Import Base.Common Model.LabelScope Model.Syntax Model.VarScope Proofs.VarScopeProofs Base.IR Model.Lower Model.Sem Model.Expand Model.Header Model.Containers Model.Layout Model.Literal Gen.Linkage Base.Tok Model.LexAlpha Model.LexDelta Model.Cli Model.RefParser Model.Resolve Model.Cfg Model.Mutability Model.DeltaNodes.
+From PV Require Import Base.Common Model.LabelScope Model.Syntax Model.VarScope Proofs.VarScopeProofs Base.IR Model.Lower Model.Sem Model.Expand Model.Header Model.Containers Model.Layout Model.Literal Gen.Linkage Base.Tok Model.LexAlpha Model.LexDelta Model.Cli Model.RefParser Model.Resolve Model.Cfg Model.Mutability Model.DeltaNodes Model.TypeLegal.
 
 Extraction Language OCaml.
 Separate Extraction
@@ -26,6 +26,7 @@ Separate Extraction
   Mutability.fc_body Mutability.fc_stmt Mutability.fc_expr Mutability.fc_decl_type
   Mutability.use_function
   DeltaNodes.parse_full DeltaNodes.btok_of_code DeltaNodes.capacity
+  TypeLegal.legal_outcome TypeLegal.legal TypeLegal.legal_outcome_pinned TypeLegal.legal_pinned TypeLegal.parse_type TypeLegal.typed_type TypeLegal.is_wellformed
   Containers.run Sem.run_main Expand.expand_sorted Expand.get_key_offset Header.build_header Header.header_spec Header.zones_wfb Header.refs_localb
   VarScope.an_program VarScope.spec_program VarScopeProofs.once VarScopeProofs.events
   Syntax.body_codes Syntax.spec_body Syntax.lint_body Syntax.lint_spec_body.
